@@ -932,6 +932,45 @@ func ruleICOnce(r *Run) {
 		if !twice && len(med) > 0 {
 			r.ok(key+"/once", fn.Pos(), "no path passes two mediated invocations")
 		}
+		// what the interceptor returns is what the client gets: a reply sent by the closure is the mediated
+		// invocation's own result, not a converted, re-made or substituted message
+		for m := range med {
+			mc, ok := m.(*ssa.Call)
+			if !ok {
+				continue
+			}
+			if tup, isTup := mc.Type().(*types.Tuple); !isTup || tup.Len() != 2 {
+				continue
+			}
+			nSend, badSend := 0, ""
+			var sendPos token.Pos
+			p.eachInstrRegion(fn, func(_ *ssa.Function, in ssa.Instruction) {
+				c, ok := in.(ssa.CallInstruction)
+				if !ok || !c.Common().IsInvoke() || c.Common().Method.Name() != "SendMsg" || len(c.Common().Args) != 1 {
+					return
+				}
+				nSend++
+				for _, o := range p.origins(c.Common().Args[0], originOpts{}) {
+					if ex, isEx := o.(*ssa.Extract); isEx && ex.Tuple == ssa.Value(mc) && ex.Index == 0 {
+						continue
+					}
+					badSend = describeValue(o)
+					if n := sourceCall(o); n != "" {
+						badSend = "the result of " + shortName(n)
+					}
+					sendPos = in.Pos()
+				}
+			})
+			if nSend > 0 {
+				r.check(badSend == "", key+"/reply-unchanged", func() token.Pos {
+					if sendPos != token.NoPos {
+						return sendPos
+					}
+					return m.Pos()
+				}(), "the reply sent is the mediated invocation's result itself",
+					"the message sent to the client can be "+badSend+" instead of the reply the interceptor-mediated invocation returned: an interceptor that answers with its own message is overruled")
+			}
+		}
 		// direct invocation of a user handler: dynamic call of a grpc.UnaryHandler / grpc.StreamHandler / MethodDesc.Handler that is not mediated
 		eachInstr(fn, func(in ssa.Instruction) {
 			c, ok := in.(ssa.CallInstruction)
